@@ -30,6 +30,15 @@ Proof. rewrite firstn_app, Nat.sub_diag, firstn_all. cbn. apply app_nil_r. Qed.
 Lemma skipn_app_all {A} (l r : list A) : skipn (length l) (l ++ r) = r.
 Proof. rewrite skipn_app, Nat.sub_diag, skipn_all. reflexivity. Qed.
 
+Lemma firstn_map_app {A B} (f : A -> B) (l : list A) (r : list B) : firstn (length l) (map f l ++ r) = map f l.
+Proof. rewrite <- (map_length f l). apply firstn_app_all. Qed.
+Lemma skipn_map_app {A B} (f : A -> B) (l : list A) (r : list B) : skipn (length l) (map f l ++ r) = r.
+Proof. rewrite <- (map_length f l). apply skipn_app_all. Qed.
+Lemma firstn_map_all {A B} (f : A -> B) (l : list A) : firstn (length l) (map f l) = map f l.
+Proof. rewrite <- (map_length f l). apply firstn_all. Qed.
+Lemma ltb_app_len {A B} (l : list A) (r : list B) : (length l + length r <? length l)%nat = false.
+Proof. apply Nat.ltb_ge. lia. Qed.
+
 Lemma zlen_nat {A} (l : list A) : Z.to_nat (zlen l) = length l.
 Proof. unfold zlen. lia. Qed.
 Lemma zlen_map {A B} (f : A -> B) l : zlen (map f l) = zlen l.
@@ -55,6 +64,22 @@ Notation py_int := (@py_int Ftxt Ctxt).
 Notation fl := (@fl F Ftxt Ctxt pf).
 Notation TI := (@TInt Ftxt Ctxt).
 Notation TW := (@TWord Ftxt Ctxt).
+Notation print_xyz := (@print_xyz F Ftxt Cx Ctxt pf).
+Notation parse_xyz := (@parse_xyz F Ftxt Cx Ctxt rf f_of_int).
+Notation parse_xyz_lines := (@parse_xyz_lines F Ftxt Ctxt rf f_of_int).
+Notation print_obj := (@print_obj F Ftxt Cx Ctxt pf).
+Notation parse_obj := (@parse_obj F Ftxt Cx Ctxt rf f_of_int).
+Notation parse_obj_lines := (@parse_obj_lines F Ftxt Ctxt rf f_of_int).
+Notation obj_vertex_line := (@obj_vertex_line F Ftxt Ctxt pf).
+Notation obj_edge_line := (@obj_edge_line Ftxt Ctxt).
+Notation obj_face_line := (@obj_face_line Ftxt Ctxt).
+Notation off_vertex_line := (@off_vertex_line F Ftxt Ctxt pf).
+Notation sized_line := (@sized_line Ftxt Ctxt).
+Notation print_off := (@print_off F Ftxt Cx Ctxt pf).
+Notation parse_off := (@parse_off F Ftxt Cx Ctxt rf f_of_int).
+Notation off_faces := (@off_faces Ftxt Ctxt).
+Notation print_tet := (@print_tet F Ftxt Cx Ctxt pf).
+Notation parse_tet := (@parse_tet F Ftxt Cx Ctxt rf f_of_int).
 
 Lemma py_float_fl x : py_float (fl x) = Some x.
 Proof. cbn. now rewrite rf_pf. Qed.
@@ -69,19 +94,19 @@ Lemma omap_int_TInt (l : list Z) : omap py_int (map TI l) = Some l.
 Proof. rewrite omap_map. rewrite (omap_ext_some _ (fun x => x)); [now rewrite map_id|]. reflexivity. Qed.
 
 (* ------------------------------------------------------------------ xyz *)
-Lemma print_xyz_eq (m : mesh) : print_xyz pf m = Some (map (fun v => map fl (v3 v)) (mV m)).
+Lemma print_xyz_eq (m : mesh) : print_xyz m = Some (map (fun v => map fl (v3 v)) (mV m)).
 Proof.
   unfold print_xyz. apply omap_ext_some. intros [[x y] z] _. reflexivity.
 Qed.
 
 Lemma parse_xyz_lines_print (V : list (F * F * F)) :
-  parse_xyz_lines rf f_of_int (map (fun v => map fl (v3 v)) V) = Some (map v3 V).
+  parse_xyz_lines (map (fun v => map fl (v3 v)) V) = Some (map v3 V).
 Proof.
   induction V as [|[[x y] z] V IH]; [reflexivity|].
   cbn [map parse_xyz_lines]. rewrite IH, omap_float_fl. reflexivity.
 Qed.
 
-Lemma xyz_roundtrip (m : mesh) L : print_xyz pf m = Some L -> parse_xyz rf f_of_int L = Some (vocab_xyz m).
+Lemma xyz_roundtrip (m : mesh) L : print_xyz m = Some L -> parse_xyz L = Some (vocab_xyz m).
 Proof.
   rewrite print_xyz_eq. intros H. inversion H; subst. unfold parse_xyz. now rewrite parse_xyz_lines_print.
 Qed.
@@ -90,17 +115,10 @@ Qed.
 Definition obj_acc_app (a b : list (list F) * list (list Z) * list (list Z)) :=
   let '(V1, E1, F1) := a in let '(V2, E2, F2) := b in (V1 ++ V2, E1 ++ E2, F1 ++ F2).
 
-Lemma parse_obj_lines_app (l1 l2 : list line) a2 :
-  parse_obj_lines rf f_of_int l2 = Some a2 ->
-  forall a1, (forall acc, parse_obj_lines rf f_of_int l1 = Some a1 /\
-                 True) ->
-  True.
-Proof. trivial. Qed.
-
 (* each block of lines only adds to its own container *)
 Lemma obj_vertices_block (V : list (F * F * F)) rest acc :
-  parse_obj_lines rf f_of_int rest = Some acc ->
-  parse_obj_lines rf f_of_int (map (obj_vertex_line pf) V ++ rest) =
+  parse_obj_lines rest = Some acc ->
+  parse_obj_lines (map obj_vertex_line V ++ rest) =
     Some (let '(V0, E0, F0) := acc in (map v3 V ++ V0, E0, F0)).
 Proof.
   intros Hr. induction V as [|[[x y] z] V IH]; cbn [map app].
@@ -113,8 +131,8 @@ Proof.
 Qed.
 
 Lemma obj_edges_block (E : list (Z * Z)) rest acc :
-  parse_obj_lines rf f_of_int rest = Some acc ->
-  parse_obj_lines rf f_of_int (map (@obj_edge_line Ftxt Ctxt) E ++ rest) =
+  parse_obj_lines rest = Some acc ->
+  parse_obj_lines (map obj_edge_line E ++ rest) =
     Some (let '(V0, E0, F0) := acc in (V0, map (fun e => keyify2 (fst e) (snd e)) E ++ E0, F0)).
 Proof.
   intros Hr. induction E as [|[a b] E IH]; cbn [map app].
@@ -127,11 +145,14 @@ Proof.
     change (is_word (TW obj_exp_kw_l) obj_imp_kw_f) with false.
     change (is_word (TW obj_exp_kw_l) obj_imp_kw_l) with true. cbn iota.
     unfold obj_imp_edge_pos, obj_exp_edge, obj_imp_edge. cbn [map omap nthz].
-    cbn. replace (a + 1 - 1) with a by lia. replace (b + 1 - 1) with b by lia. reflexivity.
+    change (nthz [TW obj_exp_kw_l; TI (a + 1); TI (b + 1)] 1) with (Some (TI (a + 1))).
+    change (nthz [TW obj_exp_kw_l; TI (a + 1); TI (b + 1)] 2) with (Some (TI (b + 1))).
+    cbn [py_int Model.py_int option_map].
+    replace (a + 1 - 1) with a by lia. replace (b + 1 - 1) with b by lia. reflexivity.
 Qed.
 
 Lemma obj_faces_block (Fs : list (list Z)) :
-  parse_obj_lines rf f_of_int (map (@obj_face_line Ftxt Ctxt) Fs) = Some ([], [], Fs).
+  parse_obj_lines (map obj_face_line Fs) = Some ([], [], Fs).
 Proof.
   induction Fs as [|f Fs IH]; [reflexivity|].
   cbn [map parse_obj_lines]. rewrite IH. unfold obj_step, obj_face_line.
@@ -145,7 +166,7 @@ Proof.
 Qed.
 
 Lemma obj_roundtrip sw (m : mesh) L :
-  print_obj pf sw m = Some L -> parse_obj rf f_of_int L = vocab_obj sw m.
+  print_obj sw m = Some L -> parse_obj L = vocab_obj sw m.
 Proof.
   unfold print_obj, vocab_obj. destruct (obj_exported_edges sw m) as [el|]; [|discriminate].
   intros H. inversion H; subst; clear H. unfold parse_obj.
@@ -156,24 +177,21 @@ Qed.
 (* ------------------------------------------------------------------ off *)
 Lemma off_faces_print (Fs : list (list Z)) :
   Forall (fun f => 3 <= zlen f) Fs ->
-  off_faces (map (@sized_line Ftxt Ctxt) Fs) = Some (Fs, []).
+  off_faces (map sized_line Fs) = Some (Fs, []).
 Proof.
   induction 1 as [|f Fs Hf _ IH]; [reflexivity|].
   cbn [map off_faces]. rewrite IH. unfold sized_line at 1. cbn [py_int Model.py_int].
   unfold off_imp_is_face. destruct (zlen f >=? 3) eqn:E; [|lia].
   unfold off_imp_face_lo, off_imp_face_hi, slice.
   replace (Z.to_nat (zlen f + 1 - 1)) with (length f) by (unfold zlen; lia).
-  cbn [Z.to_nat Pos.to_nat Pos.iter_op Nat.add skipn].
+  change (skipn (Z.to_nat 1) (sized_line f)) with (map TI f).
   rewrite <- (map_length TI f) at 1. rewrite firstn_all, omap_int_TInt. reflexivity.
 Qed.
 
-(* faces of fewer than 3 vertices are outside what an OFF file written by export_off gives back:
-   `2 a b` is read as an edge, `1 a` and `0` are skipped *)
-Definition off_ok (m : mesh) : Prop := Forall (fun f => 3 <= zlen f) (mF m).
 
 Lemma filter_nonempty_off_lines (V : list (F * F * F)) (Fs : list (list Z)) :
-  filter (fun l : line => negb (isnil l)) (map (off_vertex_line pf) V ++ map (@sized_line Ftxt Ctxt) Fs)
-  = map (off_vertex_line pf) V ++ map (@sized_line Ftxt Ctxt) Fs.
+  filter (fun l : line => negb (isnil l)) (map off_vertex_line V ++ map sized_line Fs)
+  = map off_vertex_line V ++ map sized_line Fs.
 Proof.
   rewrite filter_app. f_equal.
   - induction V as [|[[x y] z] V IH]; [reflexivity|]. cbn. now rewrite IH.
@@ -181,12 +199,12 @@ Proof.
 Qed.
 
 Lemma omap_vertex_lines (V : list (F * F * F)) :
-  omap (omap py_float) (map (off_vertex_line pf) V) = Some (map v3 V).
+  omap (omap py_float) (map off_vertex_line V) = Some (map v3 V).
 Proof.
   rewrite omap_map. apply omap_ext_some. intros v _. unfold off_vertex_line. apply omap_float_fl.
 Qed.
 
-Lemma off_roundtrip (m : mesh) : off_ok m -> parse_off rf f_of_int (print_off pf m) = Some (vocab_off m).
+Lemma off_roundtrip (m : mesh) : off_ok m -> parse_off (print_off m) = Some (vocab_off m).
 Proof.
   intros Hok. unfold parse_off, print_off.
   cbn [filter isnil negb].
@@ -195,30 +213,230 @@ Proof.
   change (is_word (TW off_header) off_header) with true. cbn iota.
   rewrite omap_int_TInt. unfold off_exp_counts, off_imp_ncounts, off_imp_counts_nv, off_imp_counts_nf.
   cbn [zlen length Z.of_nat Z.eqb Pos.eqb Pos.of_succ_nat Pos.succ nthz Z.ltb Z.compare Z.to_nat nth_error].
-  rewrite !zlen_nat.
-  rewrite <- (map_length (off_vertex_line pf) (mV m)) at 1.
-  rewrite app_length, map_length.
-  destruct (Nat.ltb_spec (length (mV m) + length (map (@sized_line Ftxt Ctxt) (mF m))) (length (mV m))) as [Hlt|_]; [lia|].
-  rewrite <- (map_length (off_vertex_line pf) (mV m)) at 1 2.
-  rewrite firstn_app_all, skipn_app_all, omap_vertex_lines.
-  rewrite <- (map_length (@sized_line Ftxt Ctxt) (mF m)) at 2 3.
-  rewrite Nat.ltb_irrefl, firstn_all, off_faces_print by assumption.
+  rewrite !zlen_nat. change (Pos.to_nat 1) with 1%nat. cbn [nth_error].
+  rewrite !zlen_nat, app_length, !map_length, ltb_app_len.
+  rewrite firstn_map_app, skipn_map_app, omap_vertex_lines, map_length, Nat.ltb_irrefl.
+  rewrite firstn_map_all, off_faces_print by assumption.
   reflexivity.
 Qed.
 
 (* ------------------------------------------------------------------ tet *)
-Lemma tet_roundtrip (m : mesh) : parse_tet rf f_of_int (print_tet pf m) = Some (vocab_tet m).
+Lemma tet_roundtrip (m : mesh) : parse_tet (print_tet m) = Some (vocab_tet m).
 Proof.
   unfold parse_tet, print_tet. unfold tet_imp_count_pos. cbn [nthz Z.ltb Z.compare Z.to_nat nth_error py_int Model.py_int].
-  rewrite !zlen_nat.
-  rewrite app_length, !map_length.
-  destruct (Nat.ltb_spec (length (mV m) + length (mC m)) (length (mV m))) as [Hlt|_]; [lia|].
-  rewrite <- (map_length (off_vertex_line pf) (mV m)) at 1 2.
-  rewrite firstn_app_all, skipn_app_all, omap_vertex_lines, map_length, Nat.ltb_irrefl.
-  rewrite <- (map_length (@sized_line Ftxt Ctxt) (mC m)) at 1. rewrite firstn_all.
+  rewrite !zlen_nat, app_length, !map_length, ltb_app_len.
+  rewrite firstn_map_app, skipn_map_app, omap_vertex_lines, map_length, Nat.ltb_irrefl, firstn_map_all.
   rewrite omap_map. rewrite (omap_ext_some _ (fun c => c)); [now rewrite map_id|].
-  intros c _. unfold sized_line, tet_imp_cell_lo. cbn [Z.to_nat Pos.to_nat Pos.iter_op Nat.add skipn].
+  intros c _. change (skipn (Z.to_nat tet_imp_cell_lo) (sized_line c)) with (map TI c).
   apply omap_int_TInt.
+Qed.
+
+(* ------------------------------------------------------------------ medit *)
+Notation print_medit := (@print_medit F Ftxt Cx Ctxt pf).
+Notation parse_medit := (@parse_medit F Ftxt Cx Ctxt rf f_of_int).
+Notation medit_run := (@medit_run F Ftxt Ctxt rf f_of_int).
+Notation medit_step := (@medit_step F Ftxt Ctxt rf f_of_int).
+Notation medit_elem := (@medit_elem F Ftxt Ctxt rf f_of_int).
+Notation medit_elem_line := (@medit_elem_line Ftxt Ctxt).
+Notation medit_vertex_line := (@medit_vertex_line F Ftxt Ctxt pf).
+Notation medit_block := (@medit_block Ftxt Ctxt).
+Notation medit_blocks := (@medit_blocks Ftxt Ctxt).
+Notation medit_keyword := (@medit_keyword Ftxt Ctxt).
+Notation macc := (macc F).
+
+Definition add_vertices (vs : list (list F)) (acc : macc) : macc :=
+  let '(V, E, Fs, C) := acc in (V ++ vs, E, Fs, C).
+Definition add_field (c : Z) (es : list (list Z)) (acc : macc) : macc :=
+  let '(V, E, Fs, C) := acc in
+  if c =? 1 then (V, E ++ es, Fs, C) else if c =? 2 then (V, E, Fs ++ es, C) else (V, E, Fs, C ++ es).
+
+Lemma add_field_nil c acc : add_field c [] acc = acc.
+Proof. destruct acc as [[[V E] Fs] C]. unfold add_field. destruct (c =? 1), (c =? 2); now rewrite app_nil_r. Qed.
+Lemma add_field_cons c e es acc : add_field c (e :: es) acc = add_field c es (add_field c [e] acc).
+Proof.
+  destruct acc as [[[V E] Fs] C]. unfold add_field.
+  destruct (c =? 1), (c =? 2); now rewrite <- app_assoc.
+Qed.
+Lemma add_vertices_cons v vs acc : add_vertices (v :: vs) acc = add_vertices vs (add_vertices [v] acc).
+Proof. destruct acc as [[[V E] Fs] C]. cbn. now rewrite <- app_assoc. Qed.
+
+Lemma medit_idx_inv i : medit_imp_idx (medit_exp_idx i) = i.
+Proof. unfold medit_imp_idx, medit_exp_idx. lia. Qed.
+
+Lemma medit_vertex_line_eq v : medit_vertex_line v = Some (map fl (v3 v) ++ [TI medit_exp_ref]).
+Proof. destruct v as [[x y] z]. reflexivity. Qed.
+
+Lemma medit_elem_vertex v acc :
+  medit_elem KVert (map fl (v3 v) ++ [TI medit_exp_ref]) acc = Some (add_vertices [v3 v] acc).
+Proof.
+  destruct acc as [[[V E] Fs] C]. destruct v as [[x y] z]. unfold Model.medit_elem.
+  change (slice (map fl (v3 (x, y, z)) ++ [TI medit_exp_ref]) 0 medit_imp_vertex_hi) with (map fl [x; y; z]).
+  rewrite omap_float_fl. reflexivity.
+Qed.
+
+Lemma medit_elem_field c a e acc :
+  (c = 1 \/ c = 2 \/ c = 3) -> zlen e = a ->
+  medit_elem (KField c a) (medit_elem_line e) acc = Some (add_field c [e] acc).
+Proof.
+  intros Hc Ha. destruct acc as [[[V E] Fs] C]. unfold Model.medit_elem, Model.medit_elem_line.
+  replace (map (fun i : Z => TI (medit_exp_idx i)) e ++ [TI medit_exp_ref])
+    with (map TI (map medit_exp_idx e ++ [medit_exp_ref])) by (now rewrite map_app, map_map).
+  rewrite omap_int_TInt, map_app, map_map.
+  rewrite (map_ext _ (fun i => i) medit_idx_inv), map_id.
+  unfold slice. rewrite Z.sub_0_r. change (Z.to_nat 0) with 0%nat. cbn [skipn].
+  replace (Z.to_nat a) with (length e) by (unfold zlen in Ha; lia).
+  rewrite firstn_app_all. unfold add_field.
+  destruct Hc as [-> | [-> | ->]]; reflexivity.
+Qed.
+
+Lemma medit_block_vertices (V : list (F * F * F)) : forall r acc rest,
+  length V = S r ->
+  medit_run (MBlock KVert (S r), acc) (map (fun v => map fl (v3 v) ++ [TI medit_exp_ref]) V ++ rest)
+  = medit_run (MIdle, add_vertices (map v3 V) acc) rest.
+Proof.
+  induction V as [|v V IH]; intros r acc rest HL; [discriminate|].
+  cbn [map app Model.medit_run Model.medit_step]. rewrite medit_elem_vertex.
+  destruct V as [|v' V].
+  - cbn in HL. injection HL as HL. subst r. reflexivity.
+  - destruct r as [|r]; [discriminate|]. rewrite IH by (cbn in *; lia).
+    cbn [map]. now rewrite (add_vertices_cons (v3 v) (v3 v' :: map v3 V) acc).
+Qed.
+
+Lemma medit_block_field c a (els : list (list Z)) :
+  (c = 1 \/ c = 2 \/ c = 3) -> Forall (fun e => zlen e = a) els -> forall r acc rest,
+  length els = S r ->
+  medit_run (MBlock (KField c a) (S r), acc) (map medit_elem_line els ++ rest)
+  = medit_run (MIdle, add_field c els acc) rest.
+Proof.
+  intros Hc Hall. induction Hall as [|e els He Hall IH]; intros r acc rest HL; [discriminate|].
+  cbn [map app Model.medit_run Model.medit_step]. rewrite medit_elem_field by assumption.
+  destruct els as [|e' els].
+  - cbn in HL. injection HL as HL. subst r. reflexivity.
+  - destruct r as [|r]; [discriminate|]. rewrite IH by (cbn in *; lia).
+    now rewrite (add_field_cons c e (e' :: els) acc).
+Qed.
+
+(* a keyword line followed by its count line and n element lines, then the blank line export_medit writes *)
+Lemma medit_idle_blank acc rest : medit_run (MIdle, acc) ([] :: rest) = medit_run (MIdle, acc) rest.
+Proof. reflexivity. Qed.
+
+Lemma medit_field_block kw c a (els : list (list Z)) acc rest :
+  (c = 1 \/ c = 2 \/ c = 3) -> Forall (fun e => zlen e = a) els -> els <> [] ->
+  line_is [TW kw] medit_imp_end = false ->
+  medit_keyword [TW kw] = Some (KField c a) ->
+  medit_run (MIdle, acc) ([TW kw] :: [TI (zlen els)] :: map medit_elem_line els ++ [] :: rest)
+  = medit_run (MIdle, add_field c els acc) rest.
+Proof.
+  intros Hc Hall Hne Hend Hkw.
+  cbn [Model.medit_run Model.medit_step]. rewrite Hend, Hkw.
+  destruct (zlen els <=? 0) eqn:E.
+  { destruct els; [congruence|]. unfold zlen in E. cbn in E. lia. }
+  destruct (length els) as [|r] eqn:HL; [destruct els; [congruence|discriminate]|].
+  cbn [Model.medit_step]. rewrite E, zlen_nat, HL. rewrite (medit_block_field c a els Hc Hall) by assumption.
+  apply medit_idle_blank.
+Qed.
+
+Lemma medit_vertex_block (V : list (F * F * F)) acc rest :
+  V <> [] ->
+  medit_run (MIdle, acc) ([TW medit_exp_vertices] :: [TI (zlen V)]
+                          :: map (fun v => map fl (v3 v) ++ [TI medit_exp_ref]) V ++ [] :: rest)
+  = medit_run (MIdle, add_vertices (map v3 V) acc) rest.
+Proof.
+  intros Hne. cbn [Model.medit_run Model.medit_step].
+  change (line_is [TW medit_exp_vertices] medit_imp_end) with false.
+  change (medit_keyword [TW medit_exp_vertices]) with (Some KVert). cbn iota.
+  destruct (zlen V <=? 0) eqn:E.
+  { destruct V; [congruence|]. unfold zlen in E. cbn in E. lia. }
+  destruct (length V) as [|r] eqn:HL; [destruct V; [congruence|discriminate]|].
+  cbn [Model.medit_step]. rewrite E, zlen_nat, HL. rewrite (medit_block_vertices V r) by assumption.
+  apply medit_idle_blank.
+Qed.
+
+(* export table entry against the import table: same arity written, counted and read back *)
+Definition block_ok (cont : Z) (b : string * Z * Z * Z) : Prop :=
+  let '(kw, c, war, car) := b in
+  c = cont /\ war = car /\ line_is [TW kw] medit_imp_end = false /\ medit_keyword [TW kw] = Some (KField c war).
+
+Lemma filter_len_Forall a (els : list (list Z)) : Forall (fun e => zlen e = a) (filter (len_is a) els).
+Proof.
+  apply Forall_forall. intros e He. apply filter_In in He as [_ He]. unfold len_is in He. lia.
+Qed.
+
+Lemma medit_blocks_run cont (Hc : cont = 2 \/ cont = 3) (els : list (list Z)) (bs : list (string * Z * Z * Z)) :
+  Forall (block_ok cont) bs -> forall acc rest,
+  medit_run (MIdle, acc) (flat_map (medit_block els) bs ++ rest)
+  = medit_run (MIdle, add_field cont (flat_map (fun b => let '(_, _, war, _) := b in filter (len_is war) els) bs) acc) rest.
+Proof.
+  induction 1 as [|[[[kw c] war] car] bs [-> [<- [Hend Hkw]]] _ IH]; intros acc rest.
+  - cbn. now rewrite add_field_nil.
+  - cbn [flat_map]. rewrite <- app_assoc. unfold Model.medit_block at 1. unfold count_if.
+    destruct (filter (len_is war) els) as [|e0 fl0] eqn:Efl.
+    + cbn [zlen length Z.of_nat Z.gtb Z.compare app]. rewrite IH. reflexivity.
+    + destruct (zlen (e0 :: fl0) >? 0) eqn:Epos; [|unfold zlen in Epos; cbn in Epos; lia].
+      cbn [app]. rewrite <- app_assoc. cbn [app].
+      rewrite (medit_field_block kw cont war (e0 :: fl0)); try assumption; try discriminate.
+      * rewrite IH. f_equal. f_equal.
+        destruct acc as [[[V E] Fs] C]. unfold add_field.
+        destruct (cont =? 1), (cont =? 2); now rewrite <- app_assoc.
+      * lia.
+      * rewrite <- Efl. apply filter_len_Forall.
+Qed.
+
+Lemma flat_map_filter_nil (bs : list (string * Z * Z * Z)) :
+  flat_map (fun b => let '(_, _, war, _) := b in filter (len_is war) (@nil (list Z))) bs = [].
+Proof. induction bs as [|[[[? ?] ?] ?] bs IH]; [reflexivity|]. cbn. exact IH. Qed.
+
+Lemma medit_exp_blocks_ok cont (Hc : cont = 2 \/ cont = 3) :
+  Forall (block_ok cont) (filter (fun b => let '(_, c, _, _) := b in c =? cont) medit_exp_blocks).
+Proof.
+  destruct Hc as [-> | ->]; cbn; repeat constructor.
+Qed.
+
+(* a line of two tokens is no keyword line *)
+Lemma medit_header_run t1 t2 acc rest : medit_run (MIdle, acc) ([t1; t2] :: rest) = medit_run (MIdle, acc) rest.
+Proof. reflexivity. Qed.
+
+Lemma medit_roundtrip (m : mesh) L : print_medit m = Some L -> parse_medit L = vocab_medit m.
+Proof.
+  unfold Model.print_medit, Model.vocab_medit.
+  rewrite (omap_ext_some _ _ _ (fun v _ => medit_vertex_line_eq v)).
+  destruct (medit_exported_edges m) as [el|] eqn:Eel; [|discriminate].
+  intros [= <-]. unfold Model.parse_medit.
+  cbn [map app fst snd]. rewrite !medit_header_run.
+  (* vertices *)
+  assert (HV : forall acc rest,
+    medit_run (MIdle, acc) ((if isnil (mV m) then [] else
+       [TW medit_exp_vertices] :: [TI (zlen (mV m))] :: map (fun v => map fl (v3 v) ++ [TI medit_exp_ref]) (mV m) ++ [[]]) ++ rest)
+    = medit_run (MIdle, add_vertices (map v3 (mV m)) acc) rest).
+  { intros acc rest. destruct (mV m) as [|v V] eqn:EV.
+    - cbn. destruct acc as [[[? ?] ?] ?]. cbn. now rewrite app_nil_r.
+    - cbn [isnil app]. rewrite <- app_assoc. cbn [app]. apply medit_vertex_block. discriminate. }
+  rewrite HV.
+  (* edges *)
+  assert (HE : forall acc rest,
+    medit_run (MIdle, acc) ((if isnil (mE m) then [] else
+       [TW medit_exp_edges] :: [TI (zlen el)] :: map (fun e => medit_elem_line (e2 e)) el ++ [[]]) ++ rest)
+    = medit_run (MIdle, add_field 1 (map e2 el) acc) rest).
+  { intros acc rest. unfold Model.medit_exported_edges in Eel. destruct (isnil (mE m)) eqn:EE.
+    - injection Eel as Eel. subst el. cbn. now rewrite add_field_nil.
+    - cbn [app]. rewrite <- app_assoc. cbn [app]. rewrite <- (map_map e2 medit_elem_line), <- (zlen_map e2).
+      destruct el as [|e0 el].
+      + cbn. now rewrite add_field_nil.
+      + apply (medit_field_block medit_exp_edges 1 2); try reflexivity; try (now left); try discriminate.
+        apply Forall_forall. intros e He. apply in_map_iff in He as [[a b] [<- _]]. reflexivity. }
+  rewrite HE.
+  (* faces and cells *)
+  assert (HB : forall cont els, cont = 2 \/ cont = 3 -> forall acc rest,
+    medit_run (MIdle, acc) ((if isnil els then [] else medit_blocks cont els) ++ rest)
+    = medit_run (MIdle, add_field cont (flat_map (fun b => let '(_, _, war, _) := b in filter (len_is war) els)
+            (filter (fun b => let '(_, c, _, _) := b in c =? cont) medit_exp_blocks)) acc) rest).
+  { intros cont els Hc acc rest. destruct els as [|e0 els].
+    - cbn [isnil app]. now rewrite flat_map_filter_nil, add_field_nil.
+    - cbn [isnil]. unfold Model.medit_blocks. apply medit_blocks_run; [assumption|].
+      now apply medit_exp_blocks_ok. }
+  rewrite (HB 2 (mF m)) by (now left). rewrite <- (app_nil_r (if isnil (mC m) then _ else _)).
+  rewrite (HB 3 (mC m)) by (now right).
+  cbn [Model.medit_run]. cbn. now rewrite !app_nil_r.
 Qed.
 
 End Proofs.
